@@ -64,18 +64,19 @@ Record mon := {
   m_last : option N;               (* last authenticated packet in either direction *)
   m_est : N;                       (* when the session was established *)
   m_owed : option N;               (* an initiation is owed since then *)
-  m_hs : N }.                      (* last handshake message sent (the code's 5 s rate limit on initiations) *)
+  m_hs : N;                        (* last handshake message sent (the code's 5 s rate limit on initiations) *)
+  m_pka : N }.                     (* persistent-keepalive interval now (s) *)
 
 Definition mon0 : mon :=
   {| m_sess := 0; m_queue := []; m_expect := []; m_tun := []; m_optka := false;
-     m_init := None; m_recv := None; m_sent := None; m_last := None; m_est := 0; m_owed := None; m_hs := 0 |}.
+     m_init := None; m_recv := None; m_sent := None; m_last := None; m_est := 0; m_owed := None; m_hs := 0; m_pka := 0 |}.
 
 Section Monitor.
-  Variables pka lo hi : N.
+  Variables pka0 lo hi : N.   (* pka0: the persistent-keepalive interval configured at the start *)
 
   (* with a persistent keepalive of at most 5 s the attempt counter is reset
      before every retransmission: the device never gives up *)
-  Definition no_giveup : bool := (0 <? pka) && (pka * sec <=? p_rekey + jmax).
+  Definition no_giveup (m : mon) : bool := (0 <? m_pka m) && (m_pka m * sec <=? p_rekey + jmax).
 
   Definition push_queue (ids : list N) (q : list (list N)) : list (list N) :=
     if N.of_nat (length q) <? QueueStagedSize then q ++ [ids] else tl q ++ [ids].
@@ -84,10 +85,10 @@ Section Monitor.
   Definition tick (t : N) (m : mon) : mon :=
     match m_init m with
     | Some (t', n) =>
-        if (maxTransmissions <=? n) && negb no_giveup && (t' + p_rekey + jmax + hi <? t)
+        if (maxTransmissions <=? n) && negb (no_giveup m) && (t' + p_rekey + jmax + hi <? t)
         then {| m_sess := m_sess m; m_queue := []; m_expect := m_expect m; m_tun := m_tun m;
                 m_optka := m_optka m; m_init := m_init m; m_recv := m_recv m; m_sent := m_sent m;
-                m_last := m_last m; m_est := m_est m; m_owed := m_owed m; m_hs := m_hs m |}
+                m_last := m_last m; m_est := m_est m; m_owed := m_owed m; m_hs := m_hs m; m_pka := m_pka m |}
         else m
     | None => m
     end.
@@ -100,7 +101,7 @@ Section Monitor.
        m_expect := m_expect m ++ map (fun id => (OData id, t)) (concat (m_queue m));
        m_tun := m_tun m;
        m_optka := true;
-       m_init := None; m_recv := m_recv m; m_sent := None; m_last := Some t; m_est := t; m_owed := None; m_hs := m_hs m |}.
+       m_init := None; m_recv := m_recv m; m_sent := None; m_last := Some t; m_est := t; m_owed := None; m_hs := m_hs m; m_pka := m_pka m |}.
 
   Definition on_input (t : N) (i : input) (m : mon) : mon :=
     match i with
@@ -108,42 +109,48 @@ Section Monitor.
     | IShiftKeys d =>                (* harness hook: the session's key becomes d older *)
         {| m_sess := m_sess m; m_queue := m_queue m; m_expect := m_expect m; m_tun := m_tun m;
            m_optka := m_optka m; m_init := m_init m; m_recv := m_recv m; m_sent := m_sent m;
-           m_last := m_last m; m_est := m_est m - d; m_owed := m_owed m; m_hs := m_hs m |}
+           m_last := m_last m; m_est := m_est m - d; m_owed := m_owed m; m_hs := m_hs m; m_pka := m_pka m |}
+    | ISetPka n =>                   (* UAPI: the interval is changed on the existing peer; when it is turned
+                                        on the interval of silence starts now and a keepalive may come at once *)
+        {| m_sess := m_sess m; m_queue := m_queue m; m_expect := m_expect m; m_tun := m_tun m;
+           m_optka := true; m_init := m_init m; m_recv := m_recv m; m_sent := m_sent m;
+           m_last := if (m_pka m =? 0) && (0 <? n) then Some t else m_last m;
+           m_est := m_est m; m_owed := m_owed m; m_hs := m_hs m; m_pka := n |}
     | IShiftHs d =>                  (* harness hook: the last handshake message counts as sent d earlier;
                                         the gap to the next initiation is then not the device's doing *)
         {| m_sess := m_sess m; m_queue := m_queue m; m_expect := m_expect m; m_tun := m_tun m;
            m_optka := m_optka m; m_init := None; m_recv := m_recv m; m_sent := m_sent m;
-           m_last := m_last m; m_est := m_est m; m_owed := m_owed m; m_hs := m_hs m - d |}
+           m_last := m_last m; m_est := m_est m; m_owed := m_owed m; m_hs := m_hs m - d; m_pka := m_pka m |}
     | ISetAttempts n =>              (* harness hook: n retries are counted as made *)
         {| m_sess := m_sess m; m_queue := m_queue m; m_expect := m_expect m; m_tun := m_tun m;
            m_optka := m_optka m;
            m_init := match m_init m with Some (t', _) => Some (t', n + 1) | None => None end;
            m_recv := m_recv m; m_sent := m_sent m; m_last := m_last m; m_est := m_est m;
-           m_owed := m_owed m; m_hs := m_hs m |}
+           m_owed := m_owed m; m_hs := m_hs m; m_pka := m_pka m |}
     | IStop =>                       (* device down: everything is dropped, nothing is owed *)
         {| m_sess := 3; m_queue := []; m_expect := []; m_tun := []; m_optka := false;
-           m_init := None; m_recv := None; m_sent := None; m_last := None; m_est := 0; m_owed := None; m_hs := m_hs m |}
+           m_init := None; m_recv := None; m_sent := None; m_last := None; m_est := 0; m_owed := None; m_hs := m_hs m; m_pka := m_pka m |}
     | IStart | IConfigure =>         (* device up / peer created on an up device: the interval of silence starts now *)
         {| m_sess := 0; m_queue := []; m_expect := []; m_tun := []; m_optka := false;
            m_init := None; m_recv := None; m_sent := None; m_last := Some t; m_est := 0; m_owed := None;
-           m_hs := 0 (* Start back-dates lastSentHandshake *) |}
+           m_hs := 0 (* Start back-dates lastSentHandshake *); m_pka := m_pka m |}
     | ITun ids =>
         (* a session whose key is older than RejectAfterTime (180 s) is no session any more *)
         let m := if (m_sess m =? 2) && (m_est m + RejectAfterTime <=? t)
                  then {| m_sess := 0; m_queue := m_queue m; m_expect := m_expect m; m_tun := m_tun m;
                          m_optka := m_optka m; m_init := m_init m; m_recv := m_recv m;
-                         m_sent := m_sent m; m_last := m_last m; m_est := m_est m; m_owed := m_owed m; m_hs := m_hs m |}
+                         m_sent := m_sent m; m_last := m_last m; m_est := m_est m; m_owed := m_owed m; m_hs := m_hs m; m_pka := m_pka m |}
                  else m in
         if m_sess m =? 2 then
           {| m_sess := 2; m_queue := m_queue m;
              m_expect := m_expect m ++ map (fun id => (OData id, t)) ids;
              m_tun := m_tun m; m_optka := m_optka m; m_init := m_init m; m_recv := m_recv m;
-             m_sent := m_sent m; m_last := m_last m; m_est := m_est m; m_owed := m_owed m; m_hs := m_hs m |}
+             m_sent := m_sent m; m_last := m_last m; m_est := m_est m; m_owed := m_owed m; m_hs := m_hs m; m_pka := m_pka m |}
         else if m_sess m =? 3 then m       (* the TUN reader drops packets for a stopped peer *)
         else
           let init' := match m_init m with
                        | Some (t', n) =>
-                           if (maxTransmissions <=? n) && negb no_giveup && (t' + p_rekey <=? t)
+                           if (maxTransmissions <=? n) && negb (no_giveup m) && (t' + p_rekey <=? t)
                            then None else Some (t', 1)
                        | None => None
                        end in
@@ -156,14 +163,14 @@ Section Monitor.
              m_owed := match m_owed m, init' with
                        | None, None => if (m_sess m =? 0) && (m_hs m + p_rekey <=? t) then Some t else None
                        | o, _ => o
-                       end; m_hs := m_hs m |}
+                       end; m_hs := m_hs m; m_pka := m_pka m |}
     | IResp => complete t m
     | IInit =>
         {| m_sess := if m_sess m =? 2 then 2 else 1; m_queue := m_queue m;
            m_expect := m_expect m ++ [(OResp, t)]; m_tun := m_tun m; m_optka := m_optka m;
            (* the peer's handshake supersedes the device's pending attempt (its
               retransmission is rate-limited against the response just sent) *)
-           m_init := None; m_recv := m_recv m; m_sent := None; m_last := Some t; m_est := m_est m; m_owed := m_owed m; m_hs := m_hs m |}
+           m_init := None; m_recv := m_recv m; m_sent := None; m_last := Some t; m_est := m_est m; m_owed := m_owed m; m_hs := m_hs m; m_pka := m_pka m |}
     | IRecv d =>
         if m_sess m =? 0 then m else
         let m := if m_sess m =? 1 then complete t m else m in
@@ -171,7 +178,7 @@ Section Monitor.
            m_tun := m_tun m ++ match d with Some id => [(id, t)] | None => [] end;
            m_optka := m_optka m; m_init := m_init m;
            m_recv := match d, m_recv m with Some _, None => Some t | _, r => r end;
-           m_sent := None; m_last := Some t; m_est := m_est m; m_owed := m_owed m; m_hs := m_hs m |}
+           m_sent := None; m_last := Some t; m_est := m_est m; m_owed := m_owed m; m_hs := m_hs m; m_pka := m_pka m |}
     end.
 
   Definition opt_min (a b : option N) : option N :=
@@ -182,11 +189,11 @@ Section Monitor.
     end.
 
   Definition persist_due (m : mon) : option N :=
-    if (0 <? pka) && ((m_sess m =? 2) ||
+    if (0 <? m_pka m) && ((m_sess m =? 2) ||
                       (* no session, no attempt in progress (device just came up): the keepalive
                          that is due needs a handshake first; the initiation counts *)
                       ((m_sess m =? 0) && match m_init m with None => true | _ => false end))
-    then match m_last m with Some l => Some (l + pka * sec) | None => None end
+    then match m_last m with Some l => Some (l + m_pka m * sec) | None => None end
     else None.
   Definition recv_due (m : mon) : option N :=
     match m_recv m with Some r => Some (r + p_keepalive) | None => None end.
@@ -227,9 +234,9 @@ Section Monitor.
         | Some (t', n) =>
             (if t + lo <? t' + p_rekey then [1] else []) ++
             (if n <? maxTransmissions then (if t' + p_rekey + jmax + hi <? t then [2] else [])
-             else if no_giveup then (if t' + p_rekey + jmax + hi <? t then [2] else [])
-             else if pka =? 0 then [3]
-             else (if t' + N.max (p_rekey + jmax) (pka * sec) + hi <? t then [2] else []))
+             else if no_giveup m then (if t' + p_rekey + jmax + hi <? t then [2] else [])
+             else if m_pka m =? 0 then [3]
+             else (if t' + N.max (p_rekey + jmax) (m_pka m * sec) + hi <? t then [2] else []))
         | None => []
         end
       else [] in
@@ -243,7 +250,7 @@ Section Monitor.
     let init' :=
       if is_init then
         match m_init m with
-        | Some (_, n) => Some (t, if no_giveup then 1 else if maxTransmissions <=? n then 1 else n + 1)
+        | Some (_, n) => Some (t, if no_giveup m then 1 else if maxTransmissions <=? n then 1 else n + 1)
         | None => Some (t, 1)
         end
       else m_init m in
@@ -261,7 +268,7 @@ Section Monitor.
         m_optka := if free_ka then false else m_optka m;
         m_init := init'; m_recv := None; m_sent := sent'; m_last := Some t; m_est := m_est m;
         m_owed := if is_init then None else m_owed m;
-        m_hs := if is_init || output_eqb o OResp then t else m_hs m |},
+        m_hs := if is_init || output_eqb o OResp then t else m_hs m; m_pka := m_pka m |},
      c_late_p ++ c_late_r ++ c_early ++ c_newhs ++ c_needless ++ c_owed ++ c_retx ++ c_exp).
 
   Definition on_tun (t id : N) (m : mon) : mon * list N :=
@@ -270,7 +277,7 @@ Section Monitor.
         if i =? id then
           ({| m_sess := m_sess m; m_queue := m_queue m; m_expect := m_expect m; m_tun := rest;
               m_optka := m_optka m; m_init := m_init m; m_recv := m_recv m; m_sent := m_sent m;
-              m_last := m_last m; m_est := m_est m; m_owed := m_owed m; m_hs := m_hs m |}, if c + hi <? t then [13] else [])
+              m_last := m_last m; m_est := m_est m; m_owed := m_owed m; m_hs := m_hs m; m_pka := m_pka m |}, if c + hi <? t then [13] else [])
         else (m, [12])
     | [] => (m, [12])
     end.
@@ -280,10 +287,10 @@ Section Monitor.
     (match m_tun m with (_, c) :: _ => if c + hi <? T then [13] else [] | [] => [] end) ++
     (match m_init m with
      | Some (t', n) =>
-         if (n <? maxTransmissions) || no_giveup
+         if (n <? maxTransmissions) || no_giveup m
          then (if t' + p_rekey + jmax + hi <? T then [2] else [])
-         else if pka =? 0 then []
-         else (if t' + N.max (p_rekey + jmax) (pka * sec) + hi <? T then [2] else [])
+         else if m_pka m =? 0 then []
+         else (if t' + N.max (p_rekey + jmax) (m_pka m * sec) + hi <? T then [2] else [])
      | None => []
      end) ++
     (match recv_due m with Some d => if d + hi <? T then [4] else [] | None => [] end) ++
@@ -323,7 +330,11 @@ Section Monitor.
         let '(m', cs) := mstep m x in
         map (pair pos) cs ++ violations_from m' tr' (pos + 1)
     end.
-  Definition violations (tr : list item) : list (N * N) := violations_from mon0 tr 0.
+  Definition mon_start : mon :=
+    {| m_sess := 0; m_queue := []; m_expect := []; m_tun := []; m_optka := false; m_init := None;
+       m_recv := None; m_sent := None; m_last := None; m_est := 0; m_owed := None; m_hs := 0;
+       m_pka := pka0 |}.
+  Definition violations (tr : list item) : list (N * N) := violations_from mon_start tr 0.
   Definition holdsb (tr : list item) : bool :=
     match violations tr with [] => true | _ => false end.
 End Monitor.
